@@ -140,6 +140,43 @@ def relEval (prop : String) (params : List String) (src : Str) (outs : List Stri
     | .ok _, .error _ => if isTree o2 then ["relayout-ill-typed"] else ["relayout-fails"]
     | .error e, _ => ["ill-typed:" ++ e]
   | "C11", [], [o] => errOK src o
+  | "C10", ps, [o] =>
+    -- params: groups of 4 per here-document operator, in operator order:
+    --   opPos, bodyStart, bodyEnd (end of the delimiter line's text), dash (0/1); last param: start of the following command or 0
+    if !o.startsWith "OK " then ["rejected"] else
+    match outcomeNodes o with
+    | .error e => ["ill-typed:" ++ e]
+    | .ok parts =>
+      let nums := ps.map String.toNat!
+      let nextStart := nums.getLast?.getD 0
+      let reds := ((parts.map Node.preorder).flatten.filter fun m =>
+        match m with | .redirect _ _ ty _ _ _ _ => ty == "<<".toList || ty == "<<-".toList | _ => false)
+      let rec go : Nat → List Nat → List Viol
+        | 0, _ => []
+        | f + 1, opPos :: bs :: be :: dash :: rest =>
+          (match reds.find? (fun m => m.pos.1 ≤ opPos && opPos < m.pos.2 &&
+                  -- the operator position lies in the redirect's own text (fd digits may precede)
+                  opPos ≤ m.pos.1 + 3) with
+           | none => ["heredoc-redirect-missing"]
+           | some (.redirect _ _ _ _ _ h _) =>
+             (match h with
+              | none => ["heredoc-body-missing"]
+              | some (.heredoc hp v) =>
+                -- (for an unquoted delimiter the shell removes line continuations in the body)
+                let raw := Spec.stripContinuations (Str.slice src bs be)
+                let stripTabs (t : Str) : Str := t.dropWhile (· == '\t')
+                let lines := raw.splitOn '\n'
+                let want : Str := if dash == 1 then
+                    (lines.map stripTabs).intersperse ['\n'] |>.flatten
+                  else raw
+                (if hp == (bs, be) || hp == (bs, be + 1) then [] else ["body-span-differs"]) ++
+                (if v == want || v == want ++ ['\n'] then [] else ["body-value-differs"])
+              | some _ => ["heredoc-not-a-heredoc-node"])
+           | _ => []) ++ go f rest
+        | _, _ => []
+      go (nums.length + 1) (nums.dropLast) ++
+      (if nextStart == 0 then [] else
+        if parts.any (fun m => m.pos.1 == nextStart) then [] else ["next-part-misplaced"])
   | "C07", [openAt, bodyAt], [alone, embedded] =>
     -- the substitution opened at `openAt` holds `parse A` shifted to `bodyAt`
     if !alone.startsWith "OK [{" then [] else
